@@ -140,8 +140,19 @@ def main():
                            "theorems": props["theorems"], "discharged": props["discharged"],
                            "input": None, "log_tail": props["log"][-3000:]}, concrete=False)
 
+    # shared calendar model vs CPython datetime (weekday / validity used by the theorems)
+    import cal_corr
+    try:
+        calres = cal_corr.run(full=(tier == "thorough"))
+    except Exception as ex:
+        calres = {"error": repr(ex), "disagreements": [("could not run", repr(ex))]}
+    if calres["disagreements"]:
+        verdict.violation({"kind": "correspondence: coq/base/Cal.v differs from CPython datetime/calendar",
+                           "input": {"first": calres["disagreements"][0]}}, concrete=False)
+
     rc = verdict.finish()
     cov = {
+        "calendar_model_correspondence": calres,
         "evaluations": len(cs),
         "distinct_nontrivial": sum(1 for k, (y, m) in enumerate(cs) if in_domain(y, m) and m in (1, 2, 3)),
         "rule": "every year 1..9999 x methods 1,2,3 plus invalid methods on boundary years; a case is "
